@@ -1679,7 +1679,7 @@ mod c10_draw {
             mx.max_stack_elements = Some(0);
             mx.max_size_of_instructions = Some(0);
             mx.max_component_elements = Some(8);
-            mx.max_component_depth = Some(2);
+            mx.max_component_depth = Some(4);
             let mut hh = hhea::Hhea::default();
             hh.number_of_h_metrics = glyphs.len() as u16;
             let hm = hmtx::Hmtx::new(metrics, vec![]);
@@ -1806,6 +1806,41 @@ mod c10_draw {
         (sum, slack, active)
     }
 
+    /// exact reference of a (possibly nested) glyph: per emitted point (base point, exact delta), the allowed difference
+    /// (one final rounding per nesting level that has active deltas + 16.16 terms) and the number of active tuples.
+    /// A composite places each component at its own offset + exact offset-delta sum, recursively.
+    fn expected_points(gi: usize, glyphs: &[GlyphIn], comps: &[Option<Vec<(usize, i64, i64)>>], loc: &[i16], st: &mut Stats, depth: usize)
+        -> (Vec<((i64, i64), (Fr, Fr))>, f64, usize) {
+        let g = &glyphs[gi];
+        match &comps[gi] {
+            None => {
+                let (sum, sl, ac) = exact_sum(g, loc, true);
+                if depth > 0 {
+                    st.count(if g.tuples.is_empty() { "draw.component_without_data" } else { "draw.component_with_data" });
+                }
+                ((0..g.coords.len() - 4).map(|i| (g.coords[i], sum[i])).collect(), sl, ac)
+            }
+            Some(cs) => {
+                let (osum, osl, oac) = exact_sum(g, loc, false);
+                let mut out = vec![];
+                let mut ac = oac;
+                let mut child_slack: f64 = 0.0;
+                for (ci, c) in cs.iter().enumerate() {
+                    if comps[c.0].is_some() {
+                        st.count(&format!("draw.nested_composite_component_depth{}_slot{}{}", depth + 1, ci.min(2), if oac > 0 && !glyphs[c.0].tuples.is_empty() { "_both_with_offset_deltas" } else { "" }));
+                    }
+                    let (pts, csl, cac) = expected_points(c.0, glyphs, comps, loc, st, depth + 1);
+                    ac += cac;
+                    child_slack = child_slack.max(csl);
+                    for (b, d) in pts {
+                        out.push(((b.0 + c.1, b.1 + c.2), (d.0.add(osum[ci].0), d.1.add(osum[ci].1))));
+                    }
+                }
+                (out, child_slack + if oac > 0 { osl } else { 0.0 }, ac)
+            }
+        }
+    }
+
     /// Fonts mixing simple glyphs WITH and WITHOUT variation data and composites whose components alternate between
     /// them (both orders, optional component-offset deltas), drawn unscaled at many locations in shuffled sequences, with
     /// fresh memory or through ONE reused caller-provided buffer, in both path styles (two scaler implementations).
@@ -1840,9 +1875,13 @@ mod c10_draw {
                 glyphs.push(g);
             }
             let mut comps: Vec<Option<Vec<(usize, i64, i64)>>> = vec![None; nsimple];
-            let ncomposite = rng.range(0, 2) as usize;
+            let ncomposite = rng.range(0, 3) as usize;
+            let mut depth_of: Vec<usize> = vec![0; nsimple];
             for _ in 0..ncomposite {
                 let nc = rng.range(2, 3) as usize;
+                // nested composites (depth <= 3): an earlier composite becomes the component in slot 0 / 1 / last
+                let inner: Vec<usize> = (nsimple..glyphs.len()).filter(|i| depth_of[*i] < 3).collect();
+                let nested_slot: Option<(usize, usize)> = if !inner.is_empty() && rng.chance(3, 4) { Some((rng.below(nc as u64) as usize, *rng.pick(&inner))) } else { None };
                 // alternate varying / non-varying children when both kinds exist, in either order
                 let with: Vec<usize> = (0..nsimple).filter(|i| !glyphs[*i].tuples.is_empty()).collect();
                 let without: Vec<usize> = (0..nsimple).filter(|i| glyphs[*i].tuples.is_empty()).collect();
@@ -1856,13 +1895,18 @@ mod c10_draw {
                         } else {
                             without.clone()
                         };
-                        (*rng.pick(&pool), rng.range(-300, 300), rng.range(-300, 300))
+                        let child = match nested_slot {
+                            Some((slot, inner_gid)) if slot == k => inner_gid,
+                            _ => *rng.pick(&pool),
+                        };
+                        (child, rng.range(-300, 300), rng.range(-300, 300))
                     })
                     .collect();
+                depth_of.push(1 + cs.iter().map(|c| depth_of[c.0]).max().unwrap_or(0));
                 let mut coords: Vec<(i64, i64)> = cs.iter().map(|c| (c.1, c.2)).collect();
                 coords.extend([(0, 0), (rng.range(200, 900), 0), (0, 0), (0, 0)]);
                 let ends: Vec<usize> = (0..nc + 4).collect();
-                let ntup = if rng.chance(1, 2) { 0 } else { rng.range(1, 2) as usize };
+                let ntup = if rng.chance(1, 3) { 0 } else { rng.range(1, 2) as usize };
                 let tuples: Vec<TupleIn> = (0..ntup)
                     .map(|_| {
                         let tents: Vec<_> = loop {
@@ -1947,42 +1991,8 @@ mod c10_draw {
                             continue;
                         }
                     }
-                    // exact reference: (default point, exact delta) per emitted point, and the allowed difference
-                    let mut expect: Vec<((i64, i64), (Fr, Fr))> = vec![];
-                    let (slack, active);
-                    match &comps[gi] {
-                        None => {
-                            let (sum, sl, ac) = exact_sum(g, &loc, true);
-                            for i in 0..g.coords.len() - 4 {
-                                expect.push((g.coords[i], sum[i]));
-                            }
-                            slack = sl;
-                            active = ac;
-                        }
-                        Some(cs) => {
-                            let (osum, osl, oac) = exact_sum(g, &loc, false);
-                            let mut sl = if oac > 0 { osl } else { 0.0 };
-                            let mut ac = oac;
-                            let mut child_slack: f64 = 0.0;
-                            for (ci, c) in cs.iter().enumerate() {
-                                let child = &glyphs[c.0];
-                                let (sum, csl, cac) = exact_sum(child, &loc, true);
-                                ac += cac;
-                                child_slack = child_slack.max(csl);
-                                for i in 0..child.coords.len() - 4 {
-                                    expect.push(((child.coords[i].0 + c.1, child.coords[i].1 + c.2), (sum[i].0.add(osum[ci].0), sum[i].1.add(osum[ci].1))));
-                                }
-                                if child.tuples.is_empty() {
-                                    st.count("draw.component_without_data");
-                                } else {
-                                    st.count("draw.component_with_data");
-                                }
-                            }
-                            sl += child_slack;
-                            slack = sl;
-                            active = ac;
-                        }
-                    }
+                    // exact reference: (base point, exact delta) per emitted point, and the allowed difference
+                    let (expect, slack, active) = expected_points(gi, &glyphs, &comps, &loc, st, 0);
                     if active > 0 {
                         st.count("draw.draws_with_active_tuples");
                     }
